@@ -188,6 +188,8 @@ def s3_presence_through(ctx):
         obj_ = p.heap.get(loc)
         if held is None and obj_ is None:
             continue
+        if not held and obj_ is not None and obj_[0] == 'new' and not ({'buy_quantity', 'sell_quantity'} & set(dict(obj_[2]))):
+            continue        # the new position keeps its quantities under other names: not read here
         if not held and obj_ is not None and obj_[0] == 'new':
             f_new = dict(obj_[2])
             net_post = T.t_sub(f_new.get('buy_quantity', ZERO), f_new.get('sell_quantity', ZERO))         # the position just opened
